@@ -1,9 +1,9 @@
-\* C07 thorough: 3 blocks, 2 values
+\* C07 thorough: 3 blocks x <= 2 writes
 CONSTANTS
   Stores = {"s1", "s2"}
-  NK = 2  NV = 2  NTK = 1  MaxVer = 3  MaxWrites = 2  MaxViews = 1
+  NK = 2  NV = 1  NTK = 1  MaxVer = 3  MaxWrites = 2  MaxViews = 1
   IterBounds <- FullOnly
-  Features = {"crash", "transient"}
+  Features = {"crash"}
   FirstBlockFixed = FALSE
   RecordHist = TRUE
 INIT Init
